@@ -62,6 +62,7 @@ size_t heap_live_sut_blocks();             // SUT blocks allocated in the curren
 bool heap_lookup(const void *p, BlockInfo *out);   // p must be the base of a live block
 bool heap_redzones_intact(char *detail, size_t n);   // guard bytes around every live SUT block of this run (plain variant)
 bool heap_was_freed(const void *p);
+bool heap_huge_available();                // blocks of a gigabyte and more can be served (reserved address space, nothing touched)
 bool heap_in_quarantine(const void *p);   // released through the seam and still withheld from the real allocator        // p is the base of a block freed earlier in this run (and not reused)
 // per-operation control
 void heap_op_begin(uint32_t fail_at /*0 = never; k = k-th SUT allocation of this op throws*/);
